@@ -168,10 +168,11 @@ def any_model():
 
 MSSM_VARY = ["TB", "Mu", "MassB", "MassWB", "MassG", "MA0", "scale", ("ml2", 1), ("me2", 1), ("ml2", 2), ("mq2", 2),
              ("mu2", 2), ("md2", 2), ("Au", 2), ("Ad", 2), ("Ae", 1), ("Ae", 2),
-             ("sm", "alpha_s"), ("sm", "MFb"), ("sm", "MFt"), ("sm", "alpha_MZ"), ("sm", "MFtau")]
+             ("sm", "alpha_s"), ("sm", "MFb"), ("sm", "MFt"), ("sm", "alpha_MZ"), ("sm", "MFtau"), ("sm", "MVZ"),
+             ("sm", "MVWm"), ("sm", "MFm")]
 THDM_MASS_VARY = ["mh", "mH", "mA", "mHp", "sba", "tb", "lambda6", "lambda7", "m122"]
 THDM_SM_VARY = [("sm", "alpha_s_mz"), ("sm", "alpha_em_mz"), ("sm", "mh"), ("smv", "mu", 2), ("smv", "md", 2),
-                ("smv", "ml", 2), ("smv", "ml", 1)]
+                ("smv", "ml", 2), ("smv", "ml", 1), ("sm", "mz"), ("sm", "mz"), ("sm", "mw")]
 
 
 @st.composite
@@ -197,7 +198,7 @@ def variant(draw, m):
             p[k[0]][k[1]] = ch(p[k[0]][k[1]])
         else:
             p[k] = ch(p[k])
-    elif draw(st.integers(0, 3)) == 0:
+    elif draw(st.integers(0, 2)) == 0:
         k = draw(st.sampled_from(THDM_SM_VARY))
         if k[0] == "sm":
             p["sm"][k[1]] = ch(p["sm"][k[1]])
